@@ -86,6 +86,17 @@ class Filter(collections.namedtuple('Filter', ['property', 'op', 'value'])):
         else:
             filter_value = self.value
 
+            if isinstance(filter_value, datetime) and \
+                    isinstance(stix_obj_property, str):
+                # Objects kept as plain dicts (e.g. of unregistered custom
+                # types) have timestamp strings; compare as instants.
+                try:
+                    stix_obj_property = stix2.utils.parse_into_datetime(
+                        stix_obj_property,
+                    )
+                except ValueError:
+                    pass
+
         if self.op == "=":
             return stix_obj_property == filter_value
         elif self.op == "!=":
